@@ -1,7 +1,7 @@
 #!/bin/bash
 # tools/seeded_at.sh <seeded-id> [tier] [property]: applies a seeded change in a scratch worktree of /repo's HEAD and
 # runs the check of its property (or the given one) against that tree (tools/check_at); /repo is not touched.
-cd /verif || exit 2
+cd "$(dirname "$0")/.." || exit 2
 id=$1; tier="${2:-quick}"; d=seeded/$id
 prop="${3:-$(python3 -c "import json;print(json.load(open('$d/meta.json'))['property'])")}"
 wt=/tmp/wt-s-$id
